@@ -199,6 +199,23 @@ class Resolver:
                 self._bind_target(tg, t, env)
         elif isinstance(n, ast.NamedExpr):
             self._bind_target(n.target, self.type_of(n.value, f, env), env)
+        elif isinstance(n, ast.Import):
+            for a in n.names:
+                if a.asname:
+                    env[a.asname] = self._res_to_type(self.ix.resolve_qualified(a.name)) or ("extref", a.name)
+                else:
+                    top = a.name.split(".")[0]
+                    env[top] = self._res_to_type(self.ix.resolve_qualified(top)) or ("extref", top)
+        elif isinstance(n, ast.ImportFrom):
+            base = n.module or ""
+            if n.level:
+                pkg = m.name if m.path.endswith("__init__.py") else m.name.rpartition(".")[0]
+                parts = pkg.split(".")
+                parts = parts[: len(parts) - (n.level - 1)]
+                base = ".".join(parts + ([n.module] if n.module else []))
+            for a in n.names:
+                q = f"{base}.{a.name}"
+                env[a.asname or a.name] = self._res_to_type(self.ix.resolve_qualified(q)) or ("extref", q)
         elif isinstance(n, (ast.For, ast.AsyncFor)):
             self._bind_target(n.target, self.elem_of(self.type_of(n.iter, f, env)), env)
         elif isinstance(n, ast.comprehension):
@@ -224,6 +241,21 @@ class Resolver:
                     ts = [self.ann(m, c, f.cls) for c in cs]
                     cur = env.get(tgt.id)
                     env[tgt.id] = mk_union([cur] + ts)
+
+    def _res_to_type(self, r):
+        if r is None:
+            return None
+        if r[0] == "class":
+            return ("classref", r[1].qualname)
+        if r[0] == "func":
+            return ("func", r[1].qualname)
+        if r[0] == "module":
+            return ("module", r[1].name)
+        if r[0] == "const":
+            return self.global_type(r[1], r[2])
+        if r[0] == "external":
+            return ("extref", r[1])
+        return None
 
     def _bind_target(self, tg, t, env) -> None:
         if isinstance(tg, ast.Name):
